@@ -125,7 +125,7 @@ Proof.
 Qed.
 
 Lemma paths_agree_arrays : forall s e M c d ch arrs asr SRq,
-  el_lookup e c = Some ch -> ckind ch = KArr arrs asr -> seq_SR s = VNum SRq ->
+  el_lookup e c = Some ch -> ckind ch = KArr arrs asr -> asr = Some (VNum SRq) ->
   prepare_chan s e M (c, d) = Ok (c, mkCh (KArr (delay_arrays arrs d M SRq) asr) (cflags ch)).
 Proof. intros s e M c d ch arrs asr SRq H1 H2 H3. unfold prepare_chan. rewrite H1, H2, H3. reflexivity. Qed.
 
